@@ -117,6 +117,11 @@ pub trait Stream: Sync + Send
 	{
 		true
 	}
+	/// override of Check::crash_sig_per_stream for this stream
+	fn crash_sig_per_stream(&self) -> Option<bool>
+	{
+		None
+	}
 	/// per-block watchdog
 	fn timeout(&self) -> Duration
 	{
@@ -135,9 +140,76 @@ pub trait Check: Sync + Send
 	fn rule(&self) -> String;
 	fn assumptions(&self) -> Vec<String>;
 	fn streams(&self) -> Vec<Box<dyn Stream>>;
+	/// crash signatures carry the stream name (so that a recorded crash of a
+	/// probe stream cannot hide a crash elsewhere); false for checks whose
+	/// very subject is crashes, where the crash site alone is the class
+	fn crash_sig_per_stream(&self) -> bool
+	{
+		true
+	}
 }
 
 // ------------------------------------------------------------------ worker
+
+/// Best effort: name the penne function in which a segmentation fault (or a
+/// stack overflow) happened, so that crash signatures are specific.
+extern "C" fn on_segv(_sig: libc::c_int)
+{
+	let bt = std::backtrace::Backtrace::force_capture();
+	let text = format!("{}", bt);
+	let mut frames: Vec<&str> = Vec::new();
+	for l in text.lines()
+	{
+		let l = l.trim();
+		if let Some((_, f)) = l.split_once(": ")
+		{
+			if f.starts_with("penne::") || f.starts_with("<penne::")
+			{
+				frames.push(f);
+				if frames.len() >= 400
+				{
+					break;
+				}
+			}
+		}
+	}
+	let first = frames.first().copied().unwrap_or("?");
+	// deep recursion shows as the same function over and over
+	let repeats = frames.iter().filter(|f| **f == first).count();
+	eprintln!("SEGV in {}{}", first, if repeats > 50 { " (deep recursion)" } else { "" });
+	unsafe { libc::_exit(139) };
+}
+
+pub fn install_segv_handler()
+{
+	unsafe {
+		// a generous alternate stack: the handler symbolises a backtrace
+		let size = 1 << 20;
+		let stack = libc::mmap(
+			std::ptr::null_mut(),
+			size,
+			libc::PROT_READ | libc::PROT_WRITE,
+			libc::MAP_PRIVATE | libc::MAP_ANONYMOUS,
+			-1,
+			0,
+		);
+		if stack != libc::MAP_FAILED
+		{
+			let ss = libc::stack_t {
+				ss_sp: stack,
+				ss_flags: 0,
+				ss_size: size,
+			};
+			libc::sigaltstack(&ss, std::ptr::null_mut());
+		}
+		let mut sa: libc::sigaction = std::mem::zeroed();
+		sa.sa_sigaction = on_segv as usize;
+		sa.sa_flags = libc::SA_ONSTACK | libc::SA_RESETHAND;
+		libc::sigemptyset(&mut sa.sa_mask);
+		libc::sigaction(libc::SIGSEGV, &sa, std::ptr::null_mut());
+		libc::sigaction(libc::SIGBUS, &sa, std::ptr::null_mut());
+	}
+}
 
 pub fn install_panic_hook()
 {
@@ -241,6 +313,7 @@ impl Agg
 pub fn worker_main(checks: &[Box<dyn Check>])
 {
 	install_panic_hook();
+	install_segv_handler();
 	let stdin = std::io::stdin();
 	let stdout = std::io::stdout();
 	let mut streams_cache: BTreeMap<String, Vec<Box<dyn Stream>>> = BTreeMap::new();
@@ -376,6 +449,7 @@ struct Worker
 }
 
 static WORKER_SEQ: AtomicU64 = AtomicU64::new(0);
+static PER_STREAM_SIGS: AtomicU64 = AtomicU64::new(1);
 
 pub fn scratch_dir() -> std::path::PathBuf
 {
@@ -509,6 +583,22 @@ fn classify_death(status: Option<std::process::ExitStatus>, tail: &str) -> Strin
 		let (loc, msg) = rest.split_once(' ').unwrap_or((rest, ""));
 		return normalize_panic(loc, msg);
 	}
+	if let Some(line) = tail.lines().rev().find(|l| l.starts_with("SEGV in "))
+	{
+		let f: String = line[8..].chars().take(90).collect();
+		// strip the hash suffix of the symbol
+		let f = match f.rfind("::h")
+		{
+			Some(i) if f.len() - i == 19 => f[..i].to_string(),
+			_ => f,
+		};
+		return format!("segv {}", f);
+	}
+	if let Some(line) = tail.lines().rev().find(|l| l.contains("error: Linking globals named"))
+	{
+		let what = line.rsplit(": ").next().unwrap_or("").trim();
+		return format!("llvm-linker-exit {}", what);
+	}
 	if tail.contains("has overflowed its stack")
 	{
 		return "stack-overflow".to_string();
@@ -517,7 +607,16 @@ fn classify_death(status: Option<std::process::ExitStatus>, tail: &str) -> Strin
 	{
 		let from = line.find("LLVM ERROR").unwrap_or(0);
 		let l: String = line[from..].chars().take(80).collect();
-		return format!("llvm-abort {}", l.trim());
+		// the verifier's first complaint names the class of breakage
+		let complaint = tail
+			.lines()
+			.find(|x| {
+				let x = x.trim_start_matches(|c: char| !c.is_ascii_uppercase());
+				x.ends_with('!') && !x.contains("LLVM ERROR") && x.len() < 90
+			})
+			.map(|x| x.trim_start_matches(|c: char| !c.is_ascii_uppercase()).to_string())
+			.unwrap_or_default();
+		return format!("llvm-abort {} {}", l.trim(), complaint).trim().to_string();
 	}
 	if let Some(line) = tail
 		.lines()
@@ -744,6 +843,7 @@ fn run_single(
 	replay: bool,
 ) -> Vec<(String, Value)>
 {
+	let per_stream_sigs = PER_STREAM_SIGS.load(Ordering::SeqCst) != 0;
 	let input_path = scratch_dir().join(format!(
 		"last-input-{}-{}.txt",
 		std::process::id(),
@@ -790,7 +890,7 @@ fn run_single(
 			Err(RecvTimeoutError::Disconnected) =>
 			{
 				let (sig, tail) = w.death_signature();
-				let sig = format!("{} [stream {}]", sig, sname);
+				let sig = if per_stream_sigs { format!("{} [stream {}]", sig, sname) } else { sig };
 				let last = std::fs::read_to_string(&input_path).unwrap_or_default();
 				res.push((sig, json!({"stderr_tail": tail, "crashed": true, "last_input": last})));
 				break;
@@ -977,6 +1077,7 @@ fn shrink(
 
 pub fn run_check(check: &dyn Check, cfg: &RunConfig) -> i32
 {
+	PER_STREAM_SIGS.store(check.crash_sig_per_stream() as u64, Ordering::SeqCst);
 	let t0 = Instant::now();
 	let id = check.id();
 	let streams = check.streams();
@@ -999,6 +1100,7 @@ pub fn run_check(check: &dyn Check, cfg: &RunConfig) -> i32
 		let stride = s.stride();
 		let timeout = s.timeout();
 		let crash_counts = s.crash_is_failure();
+		let per_stream_sigs = s.crash_sig_per_stream().unwrap_or(check.crash_sig_per_stream());
 		// blocks of a multiple of stride
 		let threads = cfg.threads.max(1) as u64;
 		let mut per_block = (n / (threads * 8)).max(1);
@@ -1069,7 +1171,14 @@ pub fn run_check(check: &dyn Check, cfg: &RunConfig) -> i32
 							{
 								// a crash is attributed to the stream it happened in, so
 								// that a recorded crash of one stream cannot hide another
-								let sig = format!("{} [stream {}]", sig, sname);
+								let sig = if per_stream_sigs
+								{
+									format!("{} [stream {}]", sig, sname)
+								}
+								else
+								{
+									sig
+								};
 								w.take().unwrap().kill();
 								let mut q = queue.lock().unwrap();
 								if blk.stride > 1 && stride_end - at > 1
@@ -1182,6 +1291,10 @@ pub fn run_check(check: &dyn Check, cfg: &RunConfig) -> i32
 		}
 		violations += 1;
 		let stream = streams.iter().find(|s| &s.name() == sname).unwrap();
+		PER_STREAM_SIGS.store(
+			stream.crash_sig_per_stream().unwrap_or(check.crash_sig_per_stream()) as u64,
+			Ordering::SeqCst,
+		);
 		let clen = stream.choice_len();
 		let (choices, detail2, steps) = if clen > 0
 		{
@@ -1309,6 +1422,7 @@ pub fn replay(check: &dyn Check, path: &str) -> i32
 		}
 	};
 	let v: Value = serde_json::from_str(&text).expect("replay json");
+	PER_STREAM_SIGS.store(check.crash_sig_per_stream() as u64, Ordering::SeqCst);
 	let id = check.id();
 	let sname = v["stream"].as_str().unwrap_or("").to_string();
 	let idx = v["idx"].as_u64().unwrap_or(0);
@@ -1340,6 +1454,10 @@ pub fn replay(check: &dyn Check, path: &str) -> i32
 			return 2;
 		}
 	};
+	PER_STREAM_SIGS.store(
+		stream.crash_sig_per_stream().unwrap_or(check.crash_sig_per_stream()) as u64,
+		Ordering::SeqCst,
+	);
 	let choices = if stream.choice_len() > 0 && v["choices"].is_null()
 	{
 		case_tree(seed, id, &sname, idx, stream.choice_len()).current()
